@@ -37,7 +37,7 @@ impl Property for C19 {
         }
     }
     fn rule(&self) -> &'static str {
-        "per run: machine, sample rate (9 standard rates 8000..384000 or random), volume 0..100, beeper/AY enables (AY optionally programmed with random registers), 3..10 frames each with 0..20 writes of bits 4/3 to port 0xFE at seeded T, SZX snapshot loads between frames (speaker/MIC levels taken from the file), drain policy always / every j-th frame / never with multi-frame host calls; oracle: samples per frame, per-sample beeper level +-1 sample, bounds, queue bound; snapshot loads between frames: SZX at frame start, SZX taken inside a frame, SNA, optionally over a halted CPU; distinct = (rate, machine, drain policy, toggles-per-frame bucket, device enables)"
+        "per run: machine, sample rate (9 standard rates 8000..384000 or random), volume 0..100, beeper/AY enables (AY optionally programmed with random registers), 3..10 frames each with 0..20 writes of bits 4/3 to port 0xFE at seeded T, SZX snapshot loads between frames (speaker/MIC levels taken from the file), drain policy always / every j-th frame / a seeded subset of the boundaries / never, with multi-frame host calls; oracle: samples per frame, per-sample beeper level +-1 sample, bounds, queue bound; snapshot loads between frames: SZX at frame start, SZX taken inside a frame, SNA, optionally over a halted CPU; distinct = (rate, machine, drain policy, toggles-per-frame bucket, device enables)"
     }
     fn state_measure(&self) -> &'static str {
         "distinct (samples-per-frame, toggle position in samples) pairs checked"
@@ -55,7 +55,7 @@ impl Property for C19 {
         ]
     }
     fn expected_probes(&self) -> Vec<&'static str> {
-        vec!["drain_always", "drain_sometimes", "drain_never", "toggle_checked", "ay_enabled", "many_toggles_in_frame", "multi_frame_call", "rate_low", "rate_high", "szx_load_between_frames", "ay_switched_by_host", "sound_enabled_after_construction", "snapshot_over_halted_cpu", "szx_taken_inside_a_frame", "sna_load_between_frames", "tape_playing_meanwhile"]
+        vec!["drain_always", "drain_sometimes", "drain_never", "drain_pattern", "tracked_frame_after_skipped_drain", "toggle_checked", "ay_enabled", "many_toggles_in_frame", "multi_frame_call", "rate_low", "rate_high", "szx_load_between_frames", "ay_switched_by_host", "sound_enabled_after_construction", "snapshot_over_halted_cpu", "szx_taken_inside_a_frame", "sna_load_between_frames", "tape_playing_meanwhile"]
     }
 
     fn gen(&self, rng: &mut Rng, tier: Tier, _idx: u64) -> Scenario {
@@ -68,8 +68,10 @@ impl Property for C19 {
         sc.set("beeper", rng.chance(5, 6) as i64);
         sc.set("ay", rng.chance(1, 3) as i64);
         sc.set("ay_seed", if rng.bool() { (rng.next() >> 8) as i64 } else { 0 });
-        sc.set("drain", *rng.pick(&[0i64, 0, 1, 2]));
+        sc.set("drain", *rng.pick(&[0i64, 0, 1, 2, 3, 3]));
         sc.set("drain_j", rng.range(2, 4));
+        // policy 3: the host takes the audio at a seeded subset of the frame boundaries (bit i of the mask: boundary i)
+        sc.set("drain_mask", (rng.next() >> 16) as i64 | if rng.bool() { 0b1011 } else { 0 });
         sc.set("sound_late", rng.chance(1, 4) as i64);
         sc.set("tape", rng.chance(1, 4) as i64);
         // a loud episode: AY at full DC level together with the speaker, at a high volume setting; later the host
@@ -126,7 +128,8 @@ impl Property for C19 {
         let volume = sc.get("volume").clamp(0, 100) as u8;
         let beeper = sc.get("beeper") != 0;
         let ay = sc.get("ay") != 0;
-        let drain = sc.get("drain").clamp(0, 2);
+        let drain = sc.get("drain").clamp(0, 3);
+        let drain_mask = sc.get("drain_mask") as u64;
         let drain_j = sc.get("drain_j").clamp(2, 8) as usize;
         // sound generation enabled in the settings, or switched on through set_sound() after construction
         let sound_late = sc.get("sound_late") != 0;
@@ -156,6 +159,7 @@ impl Property for C19 {
         match drain {
             0 => ctx.probe("drain_always"),
             1 => ctx.probe("drain_sometimes"),
+            3 => ctx.probe("drain_pattern"),
             _ => ctx.probe("drain_never"),
         }
         write_mem(&mut e, IDLE, &[0xF3, 0x18, 0xFE]);
@@ -196,6 +200,10 @@ impl Property for C19 {
         let mut audio: Vec<(f32, f32)> = vec![];
         let mut frames_total = 0usize;
         let mut undrained_frames = 0usize;
+        // policy 3: boundaries seen so far, whether the host took the audio at the previous one, whether it ever did not
+        let mut boundaries = 0u32;
+        let mut prev_drained = true;
+        let mut skipped_once = false;
         // AY currently mixed in (settings, later changed by the host through set_ay_enabled)
         let mut ay_now = ay;
         let mut ay_ever = ay;
@@ -324,12 +332,22 @@ impl Property for C19 {
                     let do_drain = match drain {
                         0 => true,
                         1 => frames_total % drain_j == 0,
+                        3 => drain_mask >> (boundaries % 48) & 1 != 0,
                         _ => false,
                     };
+                    boundaries += 1;
+                    // a frame that began with an empty queue (the host took everything at the boundary before it) and
+                    // is taken at its own end is a frame "drained at frame boundaries", whatever happened earlier
+                    let tracked = drain == 0 || (drain == 3 && prev_drained && extra == 1);
+                    if drain == 3 && tracked && do_drain && skipped_once {
+                        ctx.probe("tracked_frame_after_skipped_drain");
+                    }
+                    prev_drained = do_drain;
+                    skipped_once |= !do_drain;
                     if do_drain {
                         audio.clear();
                         let n = drain_audio(&mut e, &mut audio);
-                        if drain == 0 {
+                        if tracked {
                             if n != spf {
                                 return Err(Fail::new(
                                     "C19.samples_per_frame",
@@ -351,7 +369,7 @@ impl Property for C19 {
                                 ));
                             }
                         }
-                        if drain == 0 && !ay_now {
+                        if tracked && !ay_now {
                             // per-sample level, +-1 sample around each change
                             let tpf = f as f64 / spf as f64;
                             for (k, s) in audio.iter().enumerate() {
@@ -413,7 +431,13 @@ impl Property for C19 {
                     h.u8(beeper as u8 | (ay as u8) << 1);
                     ctx.cover(h.get());
                     start_level = cur_level;
-                    changes = std::mem::take(&mut pending);
+                    // (after a call that ran several frames the port writes noted for "the next frame" lie behind already)
+                    changes = if extra > 1 {
+                        pending.clear();
+                        vec![]
+                    } else {
+                        std::mem::take(&mut pending)
+                    };
                     frame_done = 0;
                 }
                 _ => {}
